@@ -42,8 +42,8 @@ PURE = {
         module='Properties.C04', file='Properties/C04.v',
         diffs=[QUEUES_DIFF],
         params={'initialBufferCapacity': 1, 'chunkMaxCapacity': 1},
-        footprint=['E', 'D', 'V', 'S', 'H+', 'H-', 'HV', 'validator:'],
-        oracle_kinds=['fifo.order', 'fifo.lost', 'fifo.enqueue-result', 'heap.order', 'heap.lost', 'heap.enqueue-result'],
+        footprint=['E', 'D', 'V', 'S', 'PV', 'H+', 'H-', 'HV', 'HPV', 'validator:'],
+        oracle_kinds=['fifo.order', 'fifo.lost', 'fifo.enqueue-result', 'fifo.purge-values', 'heap.order', 'heap.lost', 'heap.enqueue-result', 'heap.purge-values'],
         rule='records = observed results of generated Enqueue/Dequeue/Values/Purge/Close sequences on queues.Queue[int] '
              '(capacities patched to 1..18 so that every segment hand-over pattern occurs, plus one long episode at the real '
              'capacities) and queues.PriorityQueue[int] (few distinct priorities => many ties; extreme int64 priorities; '
@@ -52,7 +52,7 @@ PURE = {
         trusted_base=TB_COMMON + ['go/harness/queues/zz_verif_diff_test.go (generator, recorder, Go reference oracles used only to search for failing inputs)',
                                   'modelled, not verified: container/heap of the Go standard library (modelled from its source in Heap.v, tied by the layout comparison)'],
         assumptions=['type assertions in Enqueue always succeed (the wrappers only enqueue the queue\'s own job type)',
-                     'fewer than 2^64 enqueues per queue between purges (counter wrap; the wrapped regime is characterised separately)',
+                     'fewer than 2^63 items in a queue (the int64 length counter is modelled in Z)',
                      'system level (dispatcher dequeues under the queue mutex, one at a time): see C04 level_note'],
     ),
 }
